@@ -337,6 +337,15 @@ func ruleRelease() check.Rule {
 							if n := resNode(b.Pkg.TypesInfo, nil, ch); n != "" && ra.released[n] {
 								signalled = true
 							}
+							// trusted: Close()/Stop() of an object of a type defined outside the repository closes (or stops
+							// feeding and closes) the channels that object exposes as fields (fsnotify.Watcher, time.Ticker …)
+							if sel, ok := ast.Unparen(ch).(*ast.SelectorExpr); ok {
+								if id, ok := ast.Unparen(sel.X).(*ast.Ident); ok {
+									if o := objOf(b.Pkg.TypesInfo, id); o != nil && externalCloserIn(m, sc, o) {
+										signalled = true
+									}
+								}
+							}
 						}
 					}
 					if signalled {
@@ -948,9 +957,9 @@ func C03() *check.Property {
 	return &check.Property{
 		ID:       "C03",
 		Title:    "Teardown runs exactly once; closed subscriptions hold nothing upstream",
-		Patterns: cat(CorePatterns, PluginPkgs, []string{PromPkg}, RatePkgs),
-		Scope:    []string{ro},
-		Rules:    []check.Rule{ruleRelease(), ruleSelfUnsubscribe(), ruleAddTeardown(), ruleFinalizerDiscipline(), ruleTeardownAllRun(), ruleStateLevel(), ruleNoEmitUnderTeardownLock(), ruleCoreDelivers(), ruleNilGuardPolarity(), ruleAwaitedRegistered(), ruleSubjectDelivers(), ruleAddAfterClose(), ruleGoLateRegistration()},
+		Patterns: cat(CorePatterns, PluginPkgs, IOPluginPkgs, []string{PromPkg}, RatePkgs),
+		Scope:    append([]string{ro}, IOPluginPkgs...),
+		Rules:    []check.Rule{ruleRelease(), ruleSelfUnsubscribe(), ruleAddTeardown(), ruleFinalizerDiscipline(), ruleTeardownAllRun(), ruleStateLevel(), ruleNoEmitUnderTeardownLock(), ruleCoreDelivers(), ruleNilGuardPolarity(), ruleAwaitedRegistered(), ruleSubjectDelivers(), ruleAddAfterClose(), ruleGoLateRegistration(), ruleCancelObserved(), ruleDownstreamLink()},
 		Explanation: "Static ownership/typestate check. RELEASE builds, per subscribe closure, a resource graph (subscriptions returned by subscribe sites, composite subscriptions, slices of subscriptions, timers, goroutines with their stop channels) " +
 			"and proves that every acquisition reaches a node that the operator's teardown chain unsubscribes/stops/closes (teardown closures count only when the subscription they were Add()ed to is itself released), or is awaited. " +
 			"SELF-UNSUBSCRIBE, ADD-TEARDOWN and FINALIZER-DISCIPLINE check the three core mechanisms the chain relies on: a subscriber runs its finalizers after every terminal notification (outside the producer lock), the subscribe function's " +
@@ -958,7 +967,7 @@ func C03() *check.Property {
 		NotDecided:  "exactly-once under races beyond the guarded-by discipline (it follows from done being swapped under the mutex); the timing of goroutine quiescence; resources other than subscriptions, timers, goroutines and channels.",
 		Assumptions: []string{"sync.Mutex semantics", "upstream observables honour their own teardown (induction over the pipeline)"},
 		Floors:      map[string]int{"acquisitions": 150, "field_accesses": 8, "teardown_closures": 15},
-		Controls:    map[string]string{"zz_verif_controls_c03.go": roControl(controlsC03 + controlsC03b), "zz_verif_controls_c12.go": roControl(controlsC12), "zz_verif_controls_c06.go": roControl(controlsC06), "zz_verif_controls_nilguard.go": roControl(controlsNilGuard), "zz_verif_controls_c05.go": roControl(controlsC05)},
+		Controls:    map[string]string{"zz_verif_controls_c03.go": roControl(controlsC03 + controlsC03b + controlsCancelObserved), "zz_verif_controls_c12.go": roControl(controlsC12), "zz_verif_controls_c06.go": roControl(controlsC06), "zz_verif_controls_nilguard.go": roControl(controlsNilGuard), "zz_verif_controls_c05.go": roControl(controlsC05)},
 	}
 }
 
@@ -1081,3 +1090,39 @@ func verifControlTeardownSequence[T any](other Observable[T]) func(Observable[T]
 	}
 }
 `
+
+// externalCloserIn: some teardown literal of sc calls Close() or Stop() on the object o, whose type is defined outside
+// the repository.
+func externalCloserIn(m *model.Model, sc *model.SC, o types.Object) bool {
+	t := o.Type()
+	if p, ok := t.Underlying().(*types.Pointer); ok {
+		t = p.Elem()
+	} else if p, ok := t.(*types.Pointer); ok {
+		t = p.Elem()
+	}
+	named, ok := t.(*types.Named)
+	if !ok || named.Obj().Pkg() == nil || strings.HasPrefix(named.Obj().Pkg().Path(), ro) {
+		return false
+	}
+	found := false
+	for _, tr := range sc.Teardowns {
+		if tr.Val == nil || tr.Val.Lit == nil {
+			continue
+		}
+		ast.Inspect(tr.Val.Lit.Body, func(n ast.Node) bool {
+			call, ok := n.(*ast.CallExpr)
+			if !ok {
+				return true
+			}
+			sel, ok := ast.Unparen(call.Fun).(*ast.SelectorExpr)
+			if !ok || (sel.Sel.Name != "Close" && sel.Sel.Name != "Stop") {
+				return true
+			}
+			if id, ok := ast.Unparen(sel.X).(*ast.Ident); ok && objOf(sc.Pkg.TypesInfo, id) == o {
+				found = true
+			}
+			return true
+		})
+	}
+	return found
+}
